@@ -1,15 +1,15 @@
 // Stand-alone reproduction of the two failure classes C13 reports on the
 // current tree (real packages only, no harness code):
 //
-//	cd /verif && GOFLAGS=-mod=mod GOPROXY=off go run ./checks/c13/repro
+//		cd /verif && GOFLAGS=-mod=mod GOPROXY=off go run ./checks/c13/repro
 //
-//  1. eof-instead-of-final-empty-message:gzip — a stream whose last message
-//     encodes to zero bytes is read back one message short under gzip
-//     (savior/gzipsource.ReadByte hands out the last byte together with io.EOF).
-//  2. resume-error:gzip:checkpoint-at-end-of-stream:eof — a checkpoint popped
-//     after the last message cannot be resumed under gzip
-//     (savior.DiscardByRead fails when the Read that completes the discard also
-//     reports io.EOF).
+//	 1. eof-instead-of-final-empty-message:gzip — a stream whose last message
+//	    encodes to zero bytes is read back one message short under gzip
+//	    (savior/gzipsource.ReadByte hands out the last byte together with io.EOF).
+//	 2. resume-error:gzip:checkpoint-at-end-of-stream:eof — a checkpoint popped
+//	    after the last message cannot be resumed under gzip
+//	    (savior.DiscardByRead fails when the Read that completes the discard also
+//	    reports io.EOF).
 package main
 
 import (
